@@ -162,7 +162,7 @@ func c04Body(w *W) {
 
 	// S4: every byte value in each hex position (first unit and low surrogate).
 	w.Note("S4: every byte value in each of the 4 hex positions of \\u0041 and of both halves of \\ud83d\\ude00, 4 alignments")
-	for _, tmpl := range []string{`"A"`, `"😀"`, `"abc😀"`} {
+	for _, tmpl := range []string{`"\u0041"`, `"\ud83d\ude00"`, `"abc\ud83d\ude00"`} {
 		t := []byte(tmpl)
 		hexpos := map[int]bool{}
 		for i := 0; i+5 < len(t); i++ {
@@ -250,7 +250,7 @@ func c04Body(w *W) {
 				}
 				lit = append(lit, body[:l]...)
 				if variant == 2 {
-					lit = append(lit, `é`...)
+					lit = append(lit, `\u00e9`...)
 				}
 				lit = append(lit, '"')
 				ins := keyAndValue(lit, off)
@@ -271,7 +271,7 @@ func c04Body(w *W) {
 	if w.Thorough() {
 		maxL7 = 130
 	}
-	kinds := []string{`\n`, `\"`, `\\`, `\/`, `A`, `é`, `€`, `😀`, "é", "😀"}
+	kinds := []string{`\n`, `\"`, `\\`, `\/`, `\u0041`, `\u00e9`, `\u20ac`, `\ud83d\ude00`, "é", "😀"}
 	w.Note(fmt.Sprintf("S7: %d escape kinds at every position of every string length <= %d x start offsets 0..63", len(kinds), maxL7))
 	for l := 0; l <= maxL7; l++ {
 		for pos := 0; pos <= l; pos++ {
